@@ -763,15 +763,19 @@ class StructMeta(type):
         default_required = list(all_fields)
 
         clsobj._constants = {}
-        for fname in _get_all_fields_by_name(clsobj):
-            if isinstance(getattr(clsobj, fname), Constant):
-                const_val = getattr(clsobj, fname)._val
+        own_by_name = {}
+        for the_class in reversed([c for c in clsobj.mro() if isinstance(c, StructMeta)]):
+            for fname in the_class.__dict__.get("_fields", []):
+                own_by_name[fname] = the_class.__dict__.get(fname)
+        for fname, member in own_by_name.items():
+            if isinstance(member, Constant):
+                const_val = member._val
                 if not isinstance(const_val, (int, str, bool, enum.Enum, float)):
                     raise TypeError(
                         f"Constant {fname} is of an invalid type. Supported "
                         "types are : None, int, str, bool, enum.Enum, float"
                     )
-                clsobj._constants[fname] = getattr(clsobj, fname)._val
+                clsobj._constants[fname] = const_val
 
         required = cls_dict.get(REQUIRED_FIELDS, default_required)
         # a Constant is not a constructor parameter, so the signatures of the bases do not carry it:
